@@ -242,3 +242,7 @@ if "replay_jobs" in globals():
     _rj = replay_jobs
     def replay_jobs(prop, path, exes):
         return _rj(prop, path, exes) if prop in _OWNED else []
+
+C20_HARNESS = {"h_integer_u16_san": dict(src="h_integer.cpp", flags=["-DUV_BT=16"] + SAN), "h_fixpnt_u8_san": dict(src="h_fixpnt.cpp", flags=["-DUV_BT=8"] + SAN)}
+C20_MAP = {"h_integer_u16": "h_integer_u16_san", "h_fixpnt_u8": "h_fixpnt_u8_san"}
+C20_STREAMS = [integer_streams(800, 20000), fixpnt_streams(800, 20000)]
